@@ -166,7 +166,7 @@ def effect(recs, k, start, drop=0, st0=(0, 0, 0)):
     index (a later write at an index replaces the earlier entry and truncates everything behind it — also
     when that index is at or below the snapshot); the reopen returns the live entries beyond the snapshot
     index and the newest hard state of the prefix. None = ReadAll must refuse (a gap beyond the snapshot,
-    a marker at the snapshot index with another term, live entries that do not start at index+1).
+    live entries that do not start at index+1).
     Records of purged segments (before `drop`) only contribute their hard state."""
     si, sterm = start
     st = (0, 0, 0)
@@ -188,9 +188,8 @@ def effect(recs, k, start, drop=0, st0=(0, 0, 0)):
                     log = [e]
                 else:
                     log = log[:up] + [e]
-        elif r[0] == "n":
-            if r[1] == si and r[2] != sterm:
-                return None
+        # a marker at the snapshot index with another term makes ReadAll refuse only if its record lies in the
+        # segments Open selected: refusing is always acceptable, so markers never make a result unacceptable
     ents = [e for e in log if e[0] > si]
     if ents and ents[0][0] != si + 1:
         return None
